@@ -15,6 +15,10 @@
 //!        XW <u|cap> <emits> <len>      Unix sink (u = unbuffered, else buffered with that capacity) on a NON-BLOCKING socket
 //!                                      whose listener never reads during the case: sends fail with WouldBlock once the
 //!                                      listener's queue is full.  Observation has |A:<underlying send attempts> (hook H2)
+//!        UR <u|cap|d> <emits> <len>    UDP sink given a socket CONNECTED to a closed loopback port: the OS answers sends with
+//!                                      ECONNREFUSED (reported on the send after the one that bounced).  After the emits a
+//!                                      listener is bound to the port and the sink is flushed twice.
+//!                                      Observation: R|F:<two flush results>|D:<datagrams received after that>|S|A
 //!   ops = comma list of E<hex> (emit) | F (flush) | l (listener down: Unix only) | L (listener up again)
 //! observation:  R:<per op: k<n> | e | - >|D:<datagrams received, hex, in order>|S:<bytes_sent>.<packets_sent>.<bytes_dropped>.<packets_dropped>
 //!               |N:<per op: datagrams received so far>   (not part of the model's observation)
@@ -497,6 +501,67 @@ pub fn run_case(line: &str) -> String {
             format!(
                 "R:{}|D:{}|S:{}|A:{}",
                 res.join(","),
+                got.iter().map(|d| hex(d)).collect::<Vec<_>>().join(";"),
+                stats_str(&st),
+                att
+            )
+        }
+        "UR" => {
+            let n: usize = t[2].parse().unwrap();
+            let len: usize = t[3].parse().unwrap();
+            // a port nobody listens on: bind, note the address, close
+            let addr = {
+                let tmp = UdpSocket::bind("127.0.0.1:0").expect("bind");
+                tmp.local_addr().unwrap()
+            };
+            let send = UdpSocket::bind("127.0.0.1:0").expect("bind");
+            send.connect(addr).expect("connect");
+            let attempts = Arc::new(AtomicU64::new(0));
+            let a2 = attempts.clone();
+            cadence::verif::install(Arc::new(move |site| {
+                if site == "sink.write" {
+                    a2.fetch_add(1, Ordering::SeqCst);
+                }
+            }));
+            let sink: Box<dyn MetricSink + Send + Sync + RefUnwindSafe> = if t[1] == "u" {
+                Box::new(UdpMetricSink::from(addr, send).expect("sink"))
+            } else if t[1] == "d" {
+                Box::new(BufferedUdpMetricSink::from(addr, send).expect("sink"))
+            } else {
+                Box::new(BufferedUdpMetricSink::with_capacity(addr, send, t[1].parse().unwrap()).expect("sink"))
+            };
+            let show = |r: std::io::Result<usize>| match r {
+                Ok(k) => format!("k{}", k),
+                Err(e) => format!("e{}", kind_no(e.kind())),
+            };
+            let mut res = vec![];
+            for i in 0..n {
+                let m = format!("r{}.{}", i, "x".repeat(len.saturating_sub(3 + i.to_string().len())));
+                res.push(show(sink.emit(&m)));
+                thread::sleep(Duration::from_millis(1));     // let the ICMP answer arrive
+            }
+            let st = sink.stats();
+            let att = if t[1] == "u" { n as u64 } else { attempts.load(Ordering::SeqCst) };
+            // the listener appears; a bounce that is still pending may fail the first flush, not the second
+            let recv = UdpSocket::bind(addr);
+            let mut fl = vec![];
+            for _ in 0..2 {
+                fl.push(show(sink.flush().map(|_| 0)));
+                thread::sleep(Duration::from_millis(1));
+            }
+            drop(sink);
+            cadence::verif::uninstall();
+            let mut got = vec![];
+            if let Ok(r) = recv {
+                r.set_nonblocking(true).unwrap();
+                Recv::Udp(r).drain(&mut got, 30);
+            } else {
+                fl.push("norebind".to_string());
+            }
+            format!(
+                "R:{}|F:{}|D:{}|S:{}|A:{}",
+                res.join(","),
+                fl.join(","),
                 got.iter().map(|d| hex(d)).collect::<Vec<_>>().join(";"),
                 stats_str(&st),
                 att
